@@ -93,7 +93,7 @@ def gen_case(seed, tier):
                 which = ["write", "read"] if r < 0.34 else (["write"] if r < 0.67 else ["read"])
             steps.append(_toggle_steps(wl, levels, which))
     return {"config": config, "sched": {"mode": sc.choice(["seeded", "seeded", "reverse", "insertion"]),
-                                        "seed": sc.randrange(1 << 32)}, "steps": steps}
+                                        "seed": sc.randrange(1 << 32)}, "steps": steps, "reuse": fl.random() < 0.15}
 
 
 def build(config):
@@ -239,6 +239,14 @@ def run_case(case):
                 stats["probes"]["drained_in_tail"] += 1
 
     run_guarded(res, lambda: run.run(body))
+    if res.violation is None and case.get("reuse") and True:
+        # second use of the very same design object: elaborated and simulated again, it must behave identically
+        first = dig.restart()
+        run2 = ManualRun(dut, [DomainSpec("write", edge=config["w_edge"], reset_less=config["w_reset_less"]), DomainSpec("read")], sched_mode=case["sched"]["mode"], sched_seed=case["sched"]["seed"])
+        run_guarded(res, lambda: run2.run(body))
+        stats["faults"]["reuse"] = stats["faults"].get("reuse", 0) + 1
+        if res.violation is None and dig.hexdigest() != first:
+            res.violation = {"oracle": "second_use_of_same_object_differs", "step": -1, "detail": {}}
     stats["decisions"] = run.decisions
     dig.add_events(run.events)
     nontrivial = stats["probes"]["reads"] > 0 and any(stats["faults"].values())
